@@ -5,6 +5,7 @@
 -/
 import Driver.Base
 import Driver.Ops
+import Driver.P_Copy
 import Driver.P_Index
 import Driver.P_Iter
 
@@ -12,7 +13,7 @@ namespace Meddly
 namespace Plugins
 open Funcs
 
-def specChain : List Ops.SpecFn := [PIndex.spec, PIter.spec, Ops.specSet, Ops.specNumBasic]
+def specChain : List Ops.SpecFn := [PCopy.spec, PIndex.spec, PIter.spec, Ops.specSet, Ops.specNumBasic]
 
 def stepChain : List (St → Nat → List String → Option St) := [PIndex.step, PIter.step]
 
